@@ -319,7 +319,11 @@ class Reach:
         for code, qual in self.codes.items():
             lines = sorted({l for _, _, l in code.co_lines() if l is not None and l > code.co_firstlineno})
             hit = self.hit[code]
-            ent = out.setdefault(qual, {"executed": 0, "executable": 0, "hit_text": []})
+            ent = out.setdefault(qual, {"executed": 0, "executable": 0, "hit_text": [], "all_text": []})
+            for l in lines:
+                t = linecache.getline(code.co_filename, l).strip()
+                if t:
+                    ent["all_text"].append(t)
             ent["executable"] += len(lines)
             ent["executed"] += len([l for l in lines if l in hit])
             for l in sorted(hit):
@@ -330,13 +334,20 @@ class Reach:
 
 
 def landmark_hits(report, landmarks):
-    """landmarks: {name: (qualname-prefix, substring)} -> {name: bool}"""
+    """landmarks: {name: (qualname-prefix, substring)} -> {name: True | False | "stale"}.
+    "stale" = the text no longer occurs in the function's source (the code was
+    edited): that is reported in the evidence but is not a reason to call the
+    run inconclusive - only a landmark that exists and was never executed is."""
     res = {}
     for name, (qual, sub) in landmarks.items():
         ok = False
+        present = False
         for q, ent in report.items():
-            if q.startswith(qual) and any(sub in t for t in ent["hit_text"]):
-                ok = True
-                break
-        res[name] = ok
+            if q.startswith(qual):
+                if any(sub in t for t in ent["hit_text"]):
+                    ok = True
+                    break
+                if any(sub in t for t in ent.get("all_text", [])):
+                    present = True
+        res[name] = True if ok else (False if present else "stale")
     return res
